@@ -492,6 +492,8 @@ func (eng *Engine) loadContractFile(file string) error {
 			cur.Inst[callee] = m
 		case "use_axiom":
 			cur.UseAxioms = append(cur.UseAxioms, strings.Fields(strings.ReplaceAll(rest, ",", " "))...)
+		case "writes", "immutable":
+			// write-effect contracts (eff.go) read the raw clauses
 		case "ring_mod", "ring_in", "ring_const", "ring_cond", "ring_out", "ring_alias", "ring_relation":
 			// ring-mode contracts (ring.go) read the raw clauses
 		case "asm_allow", "asm_stub", "asm_dom", "asm_copy":
